@@ -10,10 +10,8 @@ package actionlint
 // names, input type, permissions values, secrets: inherit) it is an expression syntax error.
 
 import (
-	"bytes"
 	"fmt"
 	"os"
-	"path/filepath"
 	"strings"
 	"testing"
 )
@@ -42,41 +40,6 @@ type c03Seed struct {
 	// project seeds: the workflow is linted as a file of a repository that holds a local action and
 	// a local reusable workflow (nil: linted as a single source)
 	lint func(src string) vLintResult
-}
-
-// c03ProjectFiles: the repository of the project seed. The caller passes values to typed and
-// untyped inputs of the local reusable workflow and to inputs of the local action.
-var c03ProjectFiles = map[string]string{
-	".git/HEAD":                    "ref: refs/heads/main\n",
-	"act/action.yml":               "name: act\ndescription: d\ninputs:\n  in1:\n    description: d\n    required: true\n  in2:\n    description: d\n    default: x\noutputs:\n  out1:\n    description: d\n    value: v\nruns:\n  using: composite\n  steps:\n    - run: echo\n      shell: bash\n",
-	".github/workflows/callee.yml": "on:\n  workflow_call:\n    inputs:\n      cstr:\n        type: string\n      cnum:\n        type: number\n      cbool:\n        type: boolean\n      cany:\n        description: no type\n    secrets:\n      csec:\n        required: true\n    outputs:\n      cout:\n        value: v\njobs:\n  j:\n    runs-on: ubuntu-latest\n    steps:\n      - run: echo\n",
-}
-
-const c03ProjectCaller = "on: push\njobs:\n  a:\n    runs-on: ubuntu-latest\n    steps:\n      - uses: ./act\n        id: s\n        with:\n          in1: x\n          in2: y\n      - run: echo ${{ steps.s.outputs.out1 }}\n  b:\n    uses: ./.github/workflows/callee.yml\n    with:\n      cstr: x\n      cnum: 1\n      cbool: true\n      cany: z\n    secrets:\n      csec: x\n  c:\n    needs: b\n    runs-on: ubuntu-latest\n    steps:\n      - run: echo ${{ needs.b.outputs.cout }}\n"
-
-func c03ProjectLint(t *testing.T) func(src string) vLintResult {
-	dir := vTempDir(t, "c03p-")
-	vWriteFiles(t, dir, c03ProjectFiles)
-	path := filepath.Join(dir, ".github/workflows/caller.yml")
-	return func(src string) (res vLintResult) {
-		defer func() {
-			if p := recover(); p != nil {
-				res.Panic = fmt.Sprintf("%v\n%s", p, vStack())
-			}
-		}()
-		if err := os.WriteFile(path, []byte(src), 0o644); err != nil {
-			res.Err = err
-			return
-		}
-		var out bytes.Buffer
-		l, err := NewLinter(&out, &LinterOptions{WorkingDir: dir})
-		if err != nil {
-			res.Err = err
-			return
-		}
-		res.Errs, res.Err = l.LintFile(path, nil)
-		return
-	}
 }
 
 // c03DerivedSeeds produces, for every mapping of a maximal seed, the reductions that keep the
@@ -381,7 +344,7 @@ func TestVerifC03(t *testing.T) {
 		for k := 0; k < 2; k++ {
 			res := vLint(c.Src, nil)
 			if c.Project {
-				res = c03ProjectLint(t)(c.Src)
+				res = vProjectLint(t)(c.Src)
 			}
 			fmt.Printf("replay %d:\n%s\ndiagnostics: %v err=%v panic=%s\n", k, c.Src, vDiagStrings(res.Errs), res.Err, vTrunc(res.Panic, 200))
 			for _, sp := range c.Spans {
@@ -410,10 +373,10 @@ func TestVerifC03(t *testing.T) {
 	// the project seed: a caller linted inside a repository with a local action and a local reusable
 	// workflow (values given to typed and untyped inputs are placeholders like any other scalar)
 	{
-		pl := c03ProjectLint(t)
-		if res := pl(c03ProjectCaller); res.Err != nil || res.Panic != "" || len(res.Errs) > 0 {
+		pl := vProjectLint(t)
+		if res := pl(vProjectCaller); res.Err != nil || res.Panic != "" || len(res.Errs) > 0 {
 			r.HarnessError("the project seed does not lint clean: %v %v %s", vDiagStrings(res.Errs), res.Err, vTrunc(res.Panic, 200))
-		} else if cat, err := vBuildCatalogue("project-caller", c03ProjectCaller); err != nil {
+		} else if cat, err := vBuildCatalogue("project-caller", vProjectCaller); err != nil {
 			r.HarnessError("%v", err)
 		} else {
 			seeds = append(seeds, &c03Seed{name: "project-caller", cat: cat, lint: pl})
